@@ -110,6 +110,27 @@ claim("C04",
       "Not decided: sharing under skipCopySameType through type combinations (SkipCopy is an audited owner), the dynamic race detector's view. Owner table identitySinkOwners in checker/c04.go.",
       "static analysis: AST source-expression taint over builder/generator functions with converter calls as sanitisers")
 
+claim("C05",
+      "Decides structural necessary conditions of `field settings select sources as documented and are never silently dropped`: method-local settings are read only under a FieldsTarget comparison (here or at every caller), "
+      "unused-setting detection (delete at loop head, left-over check dominating success), validation before build on the complete record RawFieldSettings with the documented field-setting classification, "
+      "overlap check first in both dispatchers, unconditional candidate enumeration and exact>case-insensitive resolution with none/one/many outcomes, lookup only when no explicit path is configured.",
+      "Not decided: which source value a field receives at run time; nil behaviour of dotted paths at run time (shape: C02.R2).",
+      "static analysis: guarded-read analysis (AST guards incl. early exits, one level of callers), SSA dominance of the left-over check, switch/assignment tables")
+
+claim("C06",
+      "Decides the layering behind `custom functions are used wherever their types occur`: lookup-before-build on every path of generator.Build/Assign, callExisting consults extend then method index before reporting nothing found, "
+      "who-may-call of the rule dispatchers, builders reach nested conversions only through the Generator interface, explicit methods consult extend first; argument assembly by role agrees between CallMethod and delegateMethod and covers all roles; "
+      "missing context is a generation error; local settings of a custom function are looked up under the name of the parsed object.",
+      "Not decided: that the chosen function's result is what comes out at run time, regex selection semantics, convergence of dirty sub-methods (termination shape in C13.R5).",
+      "static analysis: SSA must-pass-through path search, who-may-call over resolved callees, switch exhaustiveness over ArgUse, SSA value identity for the looked-up name")
+
+claim("C07",
+      "Decides structural necessary conditions of error propagation in generated code: who-may-call(qualMethod), shape of the fallible-call emission (bind to the reserved err, immediate `if err != nil` with the return built by ReturnError from that identifier), "
+      "refusal before flipping ReturnError and at both users, %w last in every emitted fmt.Errorf with an error operand, Wrap(err, …) with the error first, pass-through default, blank identifier only for the unused source, "
+      "and identity of path elements (Field(target field) for every nested call of Struct.Assign, one index identifier in List.Assign, the range key in Map.Assign, every ErrorElement kind rendered).",
+      "Not decided: the concatenated path text at run time; multi-fault behaviour.",
+      "static analysis: emission-chain shape rules, SSA dominance (refusal before flip), SSA/AST value identity of path-element arguments")
+
 NOT_APPLICABLE_REASON = "rules for this property are designed (DESIGN.md §2) but the checker code is not built yet in this round; not claimed until it runs"
 
 def main():
